@@ -236,6 +236,12 @@ def cuqiarray_conversions(c, kind):
     c.eq('parameters_of_funvals_is_lossless', np.asarray(b), p)
     c.eq('parameters_of_parameters_is_identity', np.asarray(a.parameters), p)
     c.eq('funvals_of_funvals_is_identity', np.asarray(f.funvals), np.asarray(f))
+    # the representation flag as numpy hands booleans back (np.bool_, e.g. from a comparison of arrays): the same conversions
+    an = CUQIarray(p, is_par=np.True_, geometry=g)
+    c.eq('numpy_bool_flag:funvals_is_par2fun', np.asarray(an.funvals), g.par2fun(p))
+    fn = CUQIarray(np.asarray(g.par2fun(p)), is_par=np.False_, geometry=g)
+    c.eq('numpy_bool_flag:parameters_is_fun2par', np.asarray(fn.parameters), p)
+    c.eq('numpy_bool_flag:funvals_of_function_values_is_identity', np.asarray(fn.funvals), g.par2fun(p))
 
 
 def maps_not_offered(c):
